@@ -285,6 +285,9 @@ var invalidSaltLenErr = errors.New("crypto/rsa: PSSOptions.SaltLength cannot be 
 // using bytes from rand. Most applications should use [crypto/rand.Reader] as
 // rand.
 func SignPSS(rand io.Reader, priv *PrivateKey, hash crypto.Hash, digest []byte, opts *PSSOptions) ([]byte, error) {
+	if err := checkPub(&priv.PublicKey); err != nil {
+		return nil, err
+	}
 	// Note that while we don't commit to deterministic execution with respect
 	// to the rand stream, we also don't apply MaybeReadByte, so per Hyrum's Law
 	// it's probably relied upon by some. It's a tolerable promise because a
